@@ -128,18 +128,18 @@ type DInput struct {
 	Content   []byte
 	FailAfter int // -1: the reader does not fail
 	// options passed to the library
-	GroupOpt  int // 0 = none passed (default group 1), 1 = OptNoGroup, 2 = OptGroupID(Group)
-	Group     uint32
-	Link      LinkKind
-	LinkID    uint32
-	AlignSet  bool
-	Align     int
-	Name      string
-	NameSet   bool
-	Md        Meta
-	MdSet     bool // an explicit metadata option is passed
-	TimeSet   bool
-	Time      int64
+	GroupOpt int // 0 = none passed (default group 1), 1 = OptNoGroup, 2 = OptGroupID(Group)
+	Group    uint32
+	Link     LinkKind
+	LinkID   uint32
+	AlignSet bool
+	Align    int
+	Name     string
+	NameSet  bool
+	Md       Meta
+	MdSet    bool // an explicit metadata option is passed
+	TimeSet  bool
+	Time     int64
 }
 
 // EffGroup is the group the object lands in (0 = none).
@@ -276,19 +276,19 @@ const (
 )
 
 type Op struct {
-	Kind    OpKind
-	DI      DInput
-	Sel     Selector
-	ByID    bool // delete through DeleteObject(id)
-	Zero    bool
-	Compact bool
+	Kind                OpKind
+	DI                  DInput
+	Sel                 Selector
+	ByID                bool // delete through DeleteObject(id)
+	Zero                bool
+	Compact             bool
 	ZeroSet, CompactSet bool
-	ID      uint32
-	Md      Meta
-	Alg     string
-	Hex     string
-	T       TOpt
-	Now     int64 // the clock reading the implementation used (filled in by the executor)
+	ID                  uint32
+	Md                  Meta
+	Alg                 string
+	Hex                 string
+	T                   TOpt
+	Now                 int64 // the clock reading the implementation used (filled in by the executor)
 }
 
 func (o Op) Coq() string {
@@ -349,14 +349,14 @@ func (c COpts) Coq() string {
 
 // Obs is what the implementation showed after a step.
 type Obs struct {
-	Res      string // "Ok" or the name of an err constructor
-	Hdr      []byte // encoding of the in-memory header
-	Rds      []byte // encoding of the in-memory descriptors, concatenated
-	MinIDs   [][2]uint32
-	Store    []byte
-	Pos      int64
-	HasPos   bool
-	HasMem   bool // a handle exists
+	Res       string // "Ok" or the name of an err constructor
+	Hdr       []byte // encoding of the in-memory header
+	Rds       []byte // encoding of the in-memory descriptors, concatenated
+	MinIDs    [][2]uint32
+	Store     []byte
+	Pos       int64
+	HasPos    bool
+	HasMem    bool // a handle exists
 	MemIsFile bool // Hdr/Rds equal the corresponding regions of Store
 }
 
@@ -381,20 +381,73 @@ func (o Obs) Coq() string {
 	return fmt.Sprintf("(mkObs %s %s %s [%s] %s %s)", res, hdr, rds, strings.Join(mids, ";"), CoqRLE(o.Store), pos)
 }
 
+// Query is a read-only question asked of the handle after a step.
+type Query struct {
+	Kind string // "many", "one", "data"
+	Sels []Selector
+	ID   uint32
+	// observed
+	Err   string      // "" if none
+	IDs   [][2]uint32 // (ID, relative ID)
+	Bytes []byte
+}
+
+func (q Query) Coq() string {
+	var sels []string
+	for _, s := range q.Sels {
+		sels = append(sels, s.Coq())
+	}
+	var qs string
+	switch q.Kind {
+	case "many":
+		qs = "QMany [" + strings.Join(sels, "; ") + "]"
+	case "one":
+		qs = "QOne [" + strings.Join(sels, "; ") + "]"
+	default:
+		qs = fmt.Sprintf("QData %d", q.ID)
+	}
+	var ob string
+	switch {
+	case q.Err != "":
+		ob = "QErr " + q.Err
+	case q.Kind == "data":
+		ob = "QBytes " + CoqRLE(q.Bytes)
+	default:
+		var ids []string
+		for _, p := range q.IDs {
+			ids = append(ids, fmt.Sprintf("(%d,%d)", p[0], p[1]))
+		}
+		ob = "QIds [" + strings.Join(ids, ";") + "]"
+	}
+	return "(" + qs + ", " + ob + ")"
+}
+
+func coqQueries(qs []Query) string {
+	var parts []string
+	for _, q := range qs {
+		parts = append(parts, q.Coq())
+	}
+	return "[" + strings.Join(parts, ";\n     ") + "]"
+}
+
 type Step struct {
-	Op  Op
-	Obs Obs
+	Op      Op
+	Obs     Obs
+	Queries []Query
 }
 
 type Case struct {
-	ID        int
-	Backend   string // "buf" or "file"
-	Create    *COpts
-	LoadBytes []byte
-	InitObs   Obs
-	HasHandle bool
-	Steps     []Step
-	Tags      []string
+	ID          int
+	Backend     string // "buf" or "file"
+	Create      *COpts
+	LoadBytes   []byte
+	InitObs     Obs
+	HasHandle   bool
+	InitQueries []Query
+	Hostile     bool // deliberately malformed input: only outcome classes are compared
+	ForeignIDs  bool // loaded image whose live IDs are not slot+1 (known-finding class F5)
+	Steps       []Step
+	Tags        []string
 }
 
 func (c Case) Coq() string {
@@ -410,9 +463,9 @@ func (c Case) Coq() string {
 	}
 	var steps []string
 	for _, s := range c.Steps {
-		steps = append(steps, "("+s.Op.Coq()+",\n    "+s.Obs.Coq()+")")
+		steps = append(steps, "("+s.Op.Coq()+",\n    "+s.Obs.Coq()+",\n    "+coqQueries(s.Queries)+")")
 	}
-	return fmt.Sprintf("mkCase %d %s\n  %s\n  %s %s\n  [%s]", c.ID, be, init, c.InitObs.Coq(), CoqBool(c.HasHandle), strings.Join(steps, ";\n   "))
+	return fmt.Sprintf("mkCase %d %s\n  %s\n  %s %s\n  %s\n  [%s]", c.ID, be, init, c.InitObs.Coq(), CoqBool(c.HasHandle), coqQueries(c.InitQueries), strings.Join(steps, ";\n   "))
 }
 
 // CasesFile renders a complete Coq file evaluating the model on cs.
